@@ -102,11 +102,13 @@ CLAIMS = {
    tech="Lean 4 no-fault theorems in checked mode + panic-oracle execution of the checked build on hostile inputs"),
  'C18': dict(cat='proof', ref='DESIGN 5 C18, 3.2',
    text="Lean theorems (all inputs, both build modes): the repaired inverse NTT never overflows i32 and returns canonical residues for every input vector within +-2143289343 - in particular for every unreduced output of mat_vec_mul, "
-        "adversarial or not - by a per-layer magnitude invariant; the pinned-tree definition overflows on a constant vector of magnitude 2^23 (F3, kernel evaluation); every generated zeta is a canonical residue. Not proved: congruence of "
-        "ntt / to_mont / Montgomery multiply-accumulate / inv_ntt to the negacyclic product and the forward-transform envelope; decided on every run against Algorithms 41/42 and the schoolbook product in big integers on basis polynomials "
-        "x scalars, every call-site range with extremal sign patterns, and the F3 family.",
+        "adversarial or not - by a per-layer magnitude invariant; the pinned-tree definition overflows on a constant vector of magnitude 2^23 (F3, kernel evaluation); every generated zeta is a canonical residue; the forward transform, to_mont, mat_vec_mul and the verify / sign / keygen pipelines cannot overflow on their call-site envelopes. "
+        "Congruence to the ring product is a theorem too: for every c and every vector s with coefficients up to 2^19, ntt(c) . to_mont(ntt(s)) through mont_reduce and inv_ntt returns canonical residues congruent to c*s_i in Z_q[X]/(X^256+1) "
+        "(challenge_times_secret_is_the_ring_product); for every canonical matrix row representing polynomials a_j and every such vector y, transform / multiply-accumulate / inverse transform returns sum_j a_j*y_j (matrix_row_times_vector_is_the_ring_sum). "
+        "Proof: the butterflies are congruent to exact specifications, which evaluate the polynomial at 256 roots of X^256+1 (table = tree of square roots, kernel evaluation), evaluation is multiplicative, the inverse undoes the forward transform. "
+        "On every run the crate is compared with Algorithms 41/42 and the schoolbook product in big integers on basis polynomials x scalars, every call-site range with extremal sign patterns, and the F3 family.",
    note=TB + "F3 was a genuine defect, repaired in /repo by fix: 4f7cc8d.",
-   tech="Lean 4 proof by induction over butterfly layers with a magnitude invariant + kernel-evaluated refutation + hook-level differential execution against schoolbook multiplication"),
+   tech="Lean 4 proof: magnitude invariants per butterfly layer (no overflow) + congruence of the pipelines to the negacyclic product via evaluation at roots of X^256+1 + kernel-evaluated refutation of the pinned tree + differential execution against schoolbook multiplication"),
  'C16': dict(cat='other', ref='DESIGN 5 C16',
    text="Thin model + observation. Lean (decide over the declaration inventory regenerated from src/types.rs, plus layout arithmetic for all K, L): every struct reachable from the key types derives Zeroize and ZeroizeOnDrop, skips no "
         "field, has only u8 / i32 / struct-array leaves, and the fields tile the object exactly (no padding byte outside a zeroised field). What the zeroize derive and the compiler really do is not modelled; it is observed on every run: "
